@@ -303,7 +303,7 @@ def vm_crosscheck(prop, imports, pairs, timeout=600):
     src = [imports, 'Definition checks : list bool := [']
     src.append(';\n'.join(f'({b})' for b, _ in pairs))
     src.append('].')
-    src.append('Definition bad := filter (fun p => negb (snd p)) (combine (seq 0 (length checks)) checks).')
+    src.append('Definition bad := filter (fun p => negb (snd p)) (combine (List.seq 0 (length checks)) checks).')
     src.append('Eval vm_compute in (length checks, map fst bad).')
     path = os.path.join(work, name + '.v')
     with open(path, 'w') as f:
